@@ -179,6 +179,7 @@ class Scenario:
         self.zero_some = set()             # ... vanishing at some volumes only (must be kept)
         self.kwargs = kwargs or {}
         self.opened = []
+        self.open_attempts = []            # open() calls that raised (missing file, directory)
         self.lstsq = None
         self.rcond = None
         self.drop_tests = []
@@ -227,18 +228,21 @@ def run_fill(model, sc: Scenario, ctx=None):
             raise AnalysisError(f"fill_cij opens a file with mode {mode!r}")
         if isinstance(p, PathV) and p.packaged:
             f = REPO / "cij" / "data" / p.text
-            sc.opened.append(("packaged", p.text))
             if not f.is_file():
+                sc.open_attempts.append(("packaged", p.text))
                 raise RaisedV("FileNotFoundError")
+            sc.opened.append(("packaged", p.text))          # files that were actually opened (a failed attempt reads nothing)
             return FileV([l for l in f.read_text().splitlines(keepends=True)], p)
         text = p.text if isinstance(p, PathV) else p
         if not isinstance(text, str):
             raise AnalysisError("open() of a non-constant")
-        sc.opened.append(("user", text))
         if sc.fs.get(text) == "dir":
+            sc.open_attempts.append(("user", text))
             raise RaisedV("IsADirectoryError")
         if text not in sc.user_files:
+            sc.open_attempts.append(("user", text))
             raise RaisedV("FileNotFoundError")
+        sc.opened.append(("user", text))
         return FileV(sc.user_files[text].splitlines(keepends=True), p)
 
     def parse_expr(ev, a, k):
